@@ -38,8 +38,8 @@ Proof. exact (fetch_exception_cases fetcher A url body x). Qed.
 Print Assumptions C20_fetch_nothing_else_escapes.
 
 (* file_obj is closed exactly once, after everything the body did and whatever the body's outcome; a failing
-   close() is a warning, not an error; an EOFError / HTTPException / OSError / zlib.error raised while the
-   stream is in use comes out as URLFetchingError (convert_stream_error) *)
+   close() is a warning, not an error; an EOFError / HTTPException / OSError / zlib.error that crosses the
+   with block while the stream is in use comes out as URLFetchingError (convert_stream_error) *)
 Theorem C20_fetch_closes_file_obj (fetcher : string -> fret) (A : Type) url
         (body : fdict -> outcome A * list event) d f :
   fetcher url = FDict d -> d_file d = Some f ->
@@ -59,16 +59,18 @@ Proof. exact (fetch_without_file_obj fetcher A url body d). Qed.
 Print Assumptions C20_fetch_string_only.
 
 (* the six consumers (image, linked sheet, @import, font source, attachment, external SVG <use>): an Exception
-   raised by the call, any answer that carries data, and a stream that dies with an I/O, HTTP or decompression
-   error never escape - the resource is used or treated as absent, and "absent" always comes with a log *)
+   raised by the call, any answer that carries data, and a stream whose read() raises an Exception of any class
+   never escape - the resource is used or treated as absent, and "absent" always comes with a log *)
 Theorem C20_consumers_degrade_gracefully (fetcher : string -> fret) c url :
   (exists e, fetcher url = FRaise e /\ e_is_exception e = true) \/
-  (exists d, fetcher url = FDict d /\ (has_data d = true \/ dies_with_io d = true)) ->
+  (exists d, fetcher url = FDict d /\ (has_data d = true \/ dies_with_exception d = true)) ->
   exists v ev logs, consume fetcher c url = (Val v, ev, logs) /\ (v = None -> logs <> []).
 Proof. exact (consume_graceful fetcher c url). Qed.
 Print Assumptions C20_consumers_degrade_gracefully.
 
-(* exactly what escapes a consumer *)
+(* exactly what escapes a consumer: a BaseException outside Exception (from the call or from read()), and the
+   AttributeError / KeyError of an answer that is not a dict / carries no data; no Exception raised by the
+   fetcher or by the stream it returned *)
 Theorem C20_consumer_escapes_characterised (fetcher : string -> fret) c url x ev logs :
   consume fetcher c url = (Exc x, ev, logs) ->
   (exists e, fetcher url = FRaise e /\ e_is_exception e = false /\ x = Raised e) \/
@@ -77,31 +79,21 @@ Theorem C20_consumer_escapes_characterised (fetcher : string -> fret) c url x ev
   (catches c (KeyError "file_obj") = false /\
      exists d, fetcher url = FDict d /\ d_string d = None /\ d_file d = None /\ x = KeyError "file_obj") \/
   (exists d f e, fetcher url = FDict d /\ d_string d = None /\ d_file d = Some f /\
-                 fo_read f = ReadRaises e /\ x = Raised e /\ e_is_io e = false /\
-                 catches c (Raised e) = false).
+                 fo_read f = ReadRaises e /\ x = Raised e /\ e_is_exception e = false).
 Proof. exact (consume_escape_cases fetcher c url x ev logs). Qed.
 Print Assumptions C20_consumer_escapes_characterised.
 
-(* REPAIRED (finding fetch-body-read-error-escapes, F98): a stream that dies with a time-out, a reset, a
-   truncated gzip body is a fetching error for every consumer: resource skipped, failure logged, stream closed *)
-Theorem C20_read_io_error_is_fetching_error (fetcher : string -> fret) c url d f e :
+(* REPAIRED (findings fetch-body-read-error-escapes F98 and fetch-body-read-other-error-escapes F230; the
+   second was the refuted statement C20_read_other_error_escapes_refuted): a stream whose read() raises an
+   Exception of any class - time-out, reset, truncated gzip body, ValueError of a closed file, ProtocolError of
+   a urllib3 stream, StopIteration - is a fetching error for every consumer: resource skipped, failure logged,
+   stream closed *)
+Theorem C20_read_error_is_fetching_error (fetcher : string -> fret) c url d f e :
   fetcher url = FDict d -> d_string d = None -> d_file d = Some f -> fo_read f = ReadRaises e ->
-  e_is_io e = true -> e_name e <> "StopIteration" ->
+  e_is_exception e = true ->
   exists ev logs, consume fetcher c url = (Val None, ev, logs) /\ logs <> [] /\ In (Closed (fo_id f)) ev.
-Proof. exact (read_io_error_is_fetching_error fetcher c url d f e). Qed.
-Print Assumptions C20_read_io_error_is_fetching_error.
-
-(* STILL REFUTED (residual, signature fetch-body-read-other-error-escapes): an Exception outside EOFError /
-   HTTPException / OSError / zlib.error raised by file_obj.read() escapes the image, sheet and attachment
-   consumers *)
-Theorem C20_read_other_error_escapes_refuted :
-  exists (fetcher : string -> fret) (url : string) (e : exn),
-    e_is_exception e = true /\
-    (forall c, catches c (Raised e) = false -> c <> CLinkSheet ->
-               exists ev, consume fetcher c url = (Exc (Raised e), ev, [])) /\
-    (exists ev, consume fetcher CImage url = (Exc (Raised e), ev, []) /\ In (Closed 1) ev).
-Proof. exact read_other_error_escapes_refuted. Qed.
-Print Assumptions C20_read_other_error_escapes_refuted.
+Proof. exact (read_error_is_fetching_error fetcher c url d f e). Qed.
+Print Assumptions C20_read_error_is_fetching_error.
 
 (* ---- 2. url_join / iri_to_uri ---- *)
 
